@@ -235,6 +235,10 @@ def run(ctx):
                 ctx.count('argkind=' + ('str' if isinstance(a, str) else 'list'))
             # interleavings with other select() calls: flag/weight selection must not move anything else
             interleave(ctx, fmt, d, stored, lost, base_vis)
+            if fmt == 'v4':
+                # the first read of a new flags indexer by several threads at once (forced interleaving)
+                for trial in THREAD_TRIALS + [gen_thread_trial(ctx.rng) for _ in range(ctx.scale(1, 16))]:
+                    run_threads(ctx, d, stored, lost, trial)
     finally:
         shutil.rmtree(tmp, ignore_errors=True)
     ctx.exhaustive = False
@@ -414,6 +418,10 @@ def replay(ctx, doc):
         return
     tmp, sets = build(ctx)
     try:
+        if case.get('stream') == 'threads':
+            if 'v4' in sets:
+                run_threads(ctx, sets['v4'][0], sets['v4'][1], sets['v4'][2], case['trial'])
+            return
         fmt = case.get('fmt', 'v4')
         if fmt not in sets:
             return      # opening raised again: recorded by build()
@@ -424,6 +432,121 @@ def replay(ctx, doc):
         ctx.note_case((fmt, canon_arg(a)))
     finally:
         shutil.rmtree(tmp, ignore_errors=True)
+
+
+# ---------------------------------------------------------------------------------------------------------------
+# stream threads: the FIRST read of one d.flags indexer by several threads at once, with a forced interleaving
+# ---------------------------------------------------------------------------------------------------------------
+THREAD_TRIALS = [dict(arg='cam', pause_at=0), dict(arg=['static', 'cal_rfi', 'postproc'], pause_at=1),
+                 dict(arg='all', pause_at=0), dict(arg='data_lost', pause_at=0, dumps=[1, 4], late=2)]
+PAUSE_S = 0.3       # how long the first reader waits inside the transform chain for the late readers to come back
+
+
+def gen_thread_trial(rng):
+    a = rng.choice(FLAG_POOL + ['cam', 'static,cal_rfi', 'all'])
+    t = dict(arg=a, pause_at=rng.randrange(2), late=rng.choice([1, 1, 2]))
+    if rng.random() < 0.4:
+        lo = rng.randrange(3)
+        t['dumps'] = [lo, rng.randint(lo + 1, 4)]
+    return t
+
+
+def run_threads(ctx, d, stored, lost, trial):
+    """select(flags=arg) makes a new flags indexer whose dask graph is built lazily on first use.  The first reader is
+    held inside the transform chain (before transform number pause_at; the transforms of the indexer object are wrapped,
+    katdal itself is not touched) while `late` more threads read the SAME indexer; on a correct library they wait for
+    the first one (the pause ends after PAUSE_S).  Every reader, and a later read, must see (raw & mask) != 0 as bool."""
+    import threading
+    arg = trial['arg']
+    case = dict(stream='threads', trial=trial)
+    mo = ctx.model([[16, [1, wire_arg(arg)]]])[0] if ctx.model_ok else spec_py(arg)
+    spec_mask = mo[1]
+    sel = 'all' if spec_mask == 255 else ('empty' if spec_mask == 0 else 'named')
+    results, errors = {}, {}
+    try:
+        kw = dict(flags=arg if isinstance(arg, str) else list(arg))
+        if 'dumps' in trial:
+            kw['dumps'] = slice(*trial['dumps'])
+        d.select(**kw)
+        ix = np.ix_(d.dumps, d.channels, np.nonzero(d._corrprod_keep)[0])
+        flags = d.flags
+        transforms = getattr(flags, 'transforms', None)
+        if not isinstance(transforms, list) or not transforms:
+            ctx.disagree('stream=threads;what=no_transforms', case, repr(transforms)[:100], 'a list of transforms',
+                         'the v4 flags indexer has no transform chain to build lazily')
+            return
+        entered, proceed = threading.Event(), threading.Event()
+        k = min(trial.get('pause_at', 0), len(transforms) - 1)
+        real = transforms[k]
+
+        def paused(x, _real=real):
+            if not entered.is_set():
+                entered.set()
+                proceed.wait(timeout=10.0)
+            return _real(x)
+        transforms[k] = paused
+
+        def reader(who):
+            try:
+                results[who] = np.asarray(flags[:])
+            except Exception as ex:       # noqa: BLE001
+                errors[who] = repr(ex)[:200]
+        first = threading.Thread(target=reader, args=('first',))
+        first.start()
+        try:
+            if not entered.wait(timeout=10.0):
+                ctx.disagree('stream=threads;what=transform_never_called', case, None, 'transform %d called' % k,
+                             'the first read of d.flags never ran its transform chain')
+                return
+            late = [threading.Thread(target=reader, args=('late%d' % j,)) for j in range(trial.get('late', 1))]
+            for t in late:
+                t.start()
+            t_end = PAUSE_S
+            for t in late:
+                t.join(timeout=t_end)      # on a correct library the late readers are waiting for the first one
+                t_end = 0.01
+        finally:
+            proceed.set()
+        first.join()
+        for t in late:
+            t.join()
+        results['later'] = np.asarray(flags[:])
+        raw = np.asarray(d.raw_flags[:])
+    except Exception as ex:
+        ctx.disagree('stream=threads;what=raises;exc=%s' % type(ex).__name__, case, repr(ex)[:300], 'arrays',
+                     'select(flags=...) / reading d.flags from several threads raised')
+        _recover(d)
+        return
+    exp_raw = (stored | (lost.astype(np.uint8) << 3))[ix]
+    exp = (exp_raw & np.uint8(spec_mask)) != 0
+    for who in ['first'] + ['late%d' % j for j in range(trial.get('late', 1))] + ['later']:
+        role = 'late' if who.startswith('late') and who != 'later' else who
+        if who in errors:
+            ctx.disagree('stream=threads;obs=flags;reader=%s;symptom=raises;sel=%s' % (role, sel), dict(case, reader=who),
+                         errors[who], 'bool array', 'a thread reading d.flags raised')
+            continue
+        got = results.get(who)
+        if got is None or got.dtype != bool or got.shape != exp.shape:
+            ctx.disagree('stream=threads;obs=flags;reader=%s;symptom=dtype;sel=%s' % (role, sel), dict(case, reader=who),
+                         None if got is None else [str(got.dtype), list(got.shape), got.ravel()[:4].tolist()],
+                         ['bool', list(exp.shape)],
+                         'd.flags read by the %s thread is not a boolean array of the selected shape (the transform chain '
+                         'bitwise_and / view-as-bool was not (fully) applied)' % role, spec=['bool', list(exp.shape)])
+        elif not np.array_equal(got, exp):
+            bad = tuple(int(b) for b in np.argwhere(got != exp)[0])
+            ctx.disagree('stream=threads;obs=flags;reader=%s;symptom=values;sel=%s' % (role, sel),
+                         dict(case, reader=who, at=list(bad)), bool(got[bad]), bool(exp[bad]),
+                         'd.flags read by the %s thread differs from (raw byte & mask of %r) != 0' % (role, arg),
+                         spec=bool(exp[bad]))
+    if not np.array_equal(raw, exp_raw):
+        ctx.disagree('stream=threads;obs=raw_flags;sel=%s' % sel, case, raw.ravel()[:4].tolist(), exp_raw.ravel()[:4].tolist(),
+                     'raw flags differ from stored | data_lost after concurrent reads of d.flags')
+    ctx.traces_validated += 1
+    ctx.note_case(('threads', canon_arg(arg), trial.get('pause_at', 0), trial.get('late', 1), repr(trial.get('dumps'))),
+                  nontrivial=bool(exp.any()), sample=dict(stream='threads', trial=trial, mask=spec_mask))
+    ctx.count('threads_trials')
+    ctx.count('threads:sel=%s' % sel)
+    d.select()
 
 
 # ---------------------------------------------------------------------------------------------------------------
